@@ -901,6 +901,24 @@ def judge_site(ctx, repo, cls, name, args_of, no_inline=(), extra=None, want_eve
             if pv is not None and pv.root is None:
                 n += 1
                 judge_index(ctx, it, rule, cons + ":returned", pv.index, rel, loc, "returned prediction")
+        # a path that returns the fitted statsmodels model's forecast of *all* positions start..end as it is: these are
+        # the requested time points only if the horizon has no gaps, i.e. end - start + 1 == number of steps on that path
+        for s_, v in rets:
+            pv = as_pv(v[0] if isinstance(v, Tup) and v.items else v) if not isinstance(v, Tup) else as_pv(v.items[0]) if v.items else None
+            if pv is None or pv.root is None or _root_attr(pv.root.recv) != "_fitted_forecaster":
+                continue
+            n += 1
+            a = [as_lin_val(x) for x in list(pv.root.raw)[:2]]
+            nsteps = Lin.sym("len(fh)")
+            if len(a) < 2 or None in a:
+                ctx.undecided(rule, cons + ":returned-all-positions", "start / end of the returned model forecast not interpretable", loc)
+                continue
+            span = a[1] - a[0] + 1
+            ctx.check(s_.facts.entails_cmp(span, "==", nsteps) is not None, rule, cons + ":returned-all-positions",
+                      "the model forecast is returned unselected only for gap-free horizons (end - start + 1 == number of steps)",
+                      "the forecast of all positions start..end (%r values) is returned without selecting the requested time points "
+                      "on a path that does not ensure end - start + 1 == number of steps: a horizon with a gap gets rows that were "
+                      "not requested" % span, loc, witness={"input": "fh=[1, 2, 4]"})
         if want_events and n == 0:
             ctx.undecided(rule, cons, "no prediction construction found on the interpreted paths: %r" % ([v for _, v in rets][:2],), loc)
         # any training index start: no integer cutoff may be refused on the way to the labels
@@ -993,6 +1011,8 @@ def rule_r2(ctx, repo):
                    no_inline=("_predict_last_window",))
     r2_dispatch(ctx, repo, bw)
     r2_window_horizon(ctx, repo, bw)
+    r2_member_horizon(ctx, repo)
+    r2_update_then_predict(ctx, repo)
     r2_stored_horizon(ctx, repo)
     # model conformance: the conversions interpreted here are what callers get (no memoisation under an incomplete key)
     from .c02 import rule_decorators
@@ -1238,6 +1258,104 @@ def r2_window_horizon(ctx, repo, bw):
             ctx.violation("R2", cons, "_predict_last_window receives %r in the horizon position" % (seen[0],), loc)
         else:
             ctx.undecided("R2", cons, "horizon passed to _predict_last_window not interpretable: %r" % (seen[0],), loc)
+
+
+def r2_member_horizon(ctx, repo):
+    """StackingForecaster.fit: the base forecasters are fitted for the stack's *own* validated horizon, not for a
+    conversion frozen at the fit-time cutoff (their forecasts are combined under the stack's labels after updates)."""
+    stack = repo.cls("sktime/forecasting/compose/_stack.py:StackingForecaster")
+    target = repo.lookup_method(stack, "_fit_forecasters")
+    for rel in (True, False):
+        it = PInterp(repo, no_inline=("_check_forecasters", "_check_final_regressor", "_fit_forecasters", "_predict_forecasters",
+                                      "_set_y_X", "_set_fh", "check_equal_time_index"))
+        seen = []
+
+        def hook(it_, frame, call, fname, args, kwargs, st, seen=seen):
+            r = PInterp._phook(it_, it_, frame, call, fname, args, kwargs, st)
+            if r is not NotImplemented:
+                return r
+            if astq.call_name(call) == "_fit_forecasters" and isinstance(call.func, ast.Attribute) and target is not None \
+                    and isinstance(it_.ev(call.func.value, st, frame), SelfV):
+                pos = dict(zip(astq.param_names(target[1], skip_self=True), args))
+                pos.update(kwargs)
+                seen.append((pos.get("fh"), call))
+                return K(None)
+            return NotImplemented
+
+        it.extra_hook = hook
+        me, fh = make_self(it, stack, rel, {"forecasters": Opq("self.forecasters"), "final_regressor": Opq("self.final_regressor")})
+        rets, raises, k, fn = run_method(it, repo, me, "fit", {"y": Arr("y", None, "series"), "X": K(None), "fh": fh})
+        cons = "StackingForecaster.fit[%s]:member-horizon" % ("relative" if rel else "absolute")
+        loc = ctx.loc(k.module, fn)
+        if not seen:
+            ctx.undecided("R2", cons, "no call of _fit_forecasters was interpreted", loc)
+            continue
+        for got, call in seen:
+            if it.is_fh(got):
+                ctx.check(got == fh, "R2", cons, "base forecasters are fitted for the stack's own horizon",
+                          "base forecasters are fitted for %r instead of the stack's horizon %r: a conversion made with the fit-time "
+                          "cutoff no longer denotes the requested time points after an update" % (got, fh), ctx.loc(k.module, call),
+                          witness={"history": "fit(y, fh=absolute); update(y_new); predict()"})
+            elif got is None or isinstance(got, K):
+                ctx.violation("R2", cons, "base forecasters are fitted without the horizon (%r)" % (got,), ctx.loc(k.module, call))
+            else:
+                ctx.undecided("R2", cons, "horizon handed to the base forecasters not interpretable: %r" % (got,), ctx.loc(k.module, call))
+
+
+def r2_update_then_predict(ctx, repo):
+    """_update_predict_single: what is forecast after the update is the given horizon itself, or a conversion of it made
+    with the cutoff *after* the update (the update moves the cutoff)."""
+    skc = repo.cls(SK + ":_SktimeForecaster")
+    naive = repo.cls("sktime/forecasting/naive.py:NaiveForecaster")
+    seen_defs = {}
+    for cls in (naive, repo.cls("sktime/forecasting/trend.py:PolynomialTrendForecaster")):
+        hit = repo.lookup_method(cls, "_update_predict_single")
+        if hit is not None:
+            seen_defs.setdefault(id(hit[1]), (hit[0], hit[1], cls))
+    c_new = Lin.sym("cutoff_after_update")
+    for _, (k, fn, cls) in sorted(seen_defs.items(), key=lambda kv: kv[1][0].qual):
+        for rel in (True, False):
+            it = PInterp(repo, no_inline=("check_is_fitted",))
+            seen = []
+            me_box = []
+
+            def hook(it_, frame, call, fname, args, kwargs, st, seen=seen, me_box=me_box):
+                r = PInterp._phook(it_, it_, frame, call, fname, args, kwargs, st)
+                if r is not NotImplemented:
+                    return r
+                nm = astq.call_name(call)
+                if isinstance(call.func, ast.Attribute) and isinstance(it_.ev(call.func.value, st, frame), SelfV):
+                    if nm == "update":
+                        me_box[0].attrs["_cutoff"] = c_new  # the update moves the cutoff
+                        seen.append(("update", None))
+                        return me_box[0]
+                    if nm in ("_predict", "predict", "_predict_fixed_cutoff", "_predict_in_sample") or nm.startswith("_predict_"):
+                        seen.append(("predict", args[0] if args else kwargs.get("fh", kwargs.get("steps"))))
+                        return Opq("prediction")
+                return NotImplemented
+
+            it.extra_hook = hook
+            me, fh = make_self(it, cls, rel)
+            me_box.append(me)
+            rets, raises, _ = irun(it, k.module, fn, {"self": me, "y": Arr("y", None, "series"), "fh": fh, "X": K(None),
+                                                      "return_pred_int": K(False)}, cls, k)
+            cons = "%s._update_predict_single[%s]:horizon-after-update" % (k.name, "relative" if rel else "absolute")
+            loc = ctx.loc(k.module, fn)
+            preds = [v for kind, v in seen if kind == "predict"]
+            if not preds or not any(kind == "update" for kind, _ in seen):
+                ctx.undecided("R2", cons, "update / predict sequence not found: %r" % ([k_ for k_, _ in seen],), loc)
+                continue
+            ok_vals = [fh, it.make_fh(STEPS if rel else STEPS.shift(-c_new), True),
+                       it.make_fh(STEPS.shift(c_new) if rel else STEPS, False)]
+            for v in preds[:1]:
+                if not it.is_fh(v):
+                    ctx.undecided("R2", cons, "horizon handed to predict not interpretable: %r" % (v,), loc)
+                else:
+                    ctx.check(any(v == w for w in ok_vals), "R2", cons,
+                              "after the update the given horizon (or its conversion at the new cutoff) is forecast",
+                              "after the update %r is forecast; the request was %r and the cutoff has moved to %r: the conversion was "
+                              "made with the cutoff before the update" % (v, fh, c_new), loc,
+                              witness={"history": "fit(y); update_predict_single(y_new, fh=absolute)"})
 
 
 def r2_pred_int(ctx, repo, skc, rel):
